@@ -401,6 +401,33 @@ impl X {
                     ("JSON_AGG", 1) => PgFunc::json_agg(a[0].clone()).into(),
                     ("ARRAY_AGG", 1) => PgFunc::array_agg(a[0].clone()).into(),
                     ("ROUND", 2) => Func::round_with_precision(a[0].clone(), a[1].clone()).into(),
+                    ("ANY", 1) => PgFunc::any(a[0].clone()).into(),
+                    ("SOME", 1) => PgFunc::some(a[0].clone()).into(),
+                    ("ALL", 1) => PgFunc::all(a[0].clone()).into(),
+                    ("ARRAY_AGG_DISTINCT", 1) => PgFunc::array_agg_distinct(a[0].clone()).into(),
+                    ("DATE_TRUNC", 2) => {
+                        use sea_query::PgDateTruncUnit as U;
+                        let unit = match &args[0] {
+                            X::Text(u) => match u.as_str() {
+                                "microseconds" => U::Microseconds,
+                                "milliseconds" => U::Milliseconds,
+                                "second" => U::Second,
+                                "minute" => U::Minute,
+                                "hour" => U::Hour,
+                                "day" => U::Day,
+                                "week" => U::Week,
+                                "month" => U::Month,
+                                "quarter" => U::Quarter,
+                                "year" => U::Year,
+                                "decade" => U::Decade,
+                                "century" => U::Century,
+                                "millennium" => U::Millennium,
+                                other => panic!("harness: unknown date_trunc unit {other}"),
+                            },
+                            other => panic!("harness: date_trunc unit must be text, got {other:?}"),
+                        };
+                        PgFunc::date_trunc(unit, a[1].clone()).into()
+                    }
                     (n, _) => Func::cust(Alias::new(n)).args(a).into(),
                 }
             }
